@@ -17,7 +17,7 @@ from hypothesis import HealthCheck, Phase, given, seed as hseed, settings, strat
 
 from vlib import oracles
 from vlib.campaign import Campaign
-from vlib.engine_d import Run, inj_cancel, inj_recover, inj_signal, inj_start_stage
+from vlib.engine_d import Run, inj_cancel, inj_pause, inj_recover, inj_signal, inj_start_stage, inj_unpause
 from vlib.par import run_shards
 from vlib.sched import make_schedule, schedule_desc
 from vlib.spec import features
@@ -32,6 +32,10 @@ def apply_injections(run: Run, spec: dict[str, Any], inj: list[list[Any]]) -> No
             f = inj_cancel()
         elif kind == "recover":
             f = inj_recover(1 + arg % 2)
+        elif kind == "pause":
+            f = inj_pause()
+        elif kind == "unpause":
+            f = inj_unpause()
         elif kind == "signal":
             f = inj_signal(refs[arg % len(refs)], "go", {"n": arg}, persistent=bool(arg & 1))
         else:
@@ -79,6 +83,49 @@ def shard_d(prop: str, tier: str, seed: int, n: int) -> dict[str, Any]:
     return c.export()
 
 
+def shard_pause(prop: str, tier: str, seed: int, n: int) -> dict[str, Any]:
+    """Operator pause / unpause around parallel branches (one of which may fail), ResumeStage often held back."""
+    from vlib.spec import ok, stage
+
+    c = Campaign(prop, tier, seed, LEVEL)
+
+    @st.composite
+    def pause_case(draw):
+        k = draw(st.integers(2, 3))
+        stages = [stage("x", [], [ok()])]
+        for i in range(k):
+            beh = draw(st.sampled_from(["ok", "fail", "two", "poll"]))
+            tasks_ = {"ok": [ok()], "fail": [ok(), {"b": "fail"}], "two": [ok(), ok()], "poll": [{"b": "poll", "k": 2}]}[beh]
+            stages.append(stage(f"b{i}", ["x"], tasks_))
+        if draw(st.booleans()):
+            stages.append(stage("j", [f"b{i}" for i in range(k)], [ok()]))
+        spec = {"name": "pause-fork", "stages": stages}
+        p = draw(st.integers(4, 22))
+        q = p + draw(st.integers(1, 14))
+        inj = [[p, "pause", 0], [q, "unpause", 0]]
+        if draw(st.booleans()):
+            inj.append([q + draw(st.integers(1, 10)), draw(st.sampled_from(["pause", "cancel", "unpause"])), 0])
+        sd = draw(schedule_desc())
+        if draw(st.booleans()):
+            sd = {"style": "hold", "d": sd["d"], "R": sd["R"], "hold": "ResumeStage", "hold_for": draw(st.integers(5, 40))}
+        return spec, sd, inj
+
+    @hseed(seed)
+    @settings(max_examples=n, database=None, deadline=None, derandomize=False, suppress_health_check=list(HealthCheck),
+              phases=[Phase.generate], report_multiple_bugs=False)
+    @given(pause_case())
+    def t(case):
+        spec, sd, inj = case
+        run = Run(spec, make_schedule(sd))
+        apply_injections(run, spec, inj)
+        run.drain()
+        judge_audit(c, run.w.audit(), {"engine": "D", "spec": spec, "schedule": sd, "inj": inj},
+                    ["family:pause"] + [f"inj:{k}" for _a, k, _b in inj], "D")
+
+    t()
+    return c.export()
+
+
 def shard_k(prop: str, tier: str, seed: int, names: list[str]) -> dict[str, Any]:
     from vlib.engine_k import crash_states, recover_from
     from vlib.spec import core_corpus
@@ -114,6 +161,7 @@ def run(c: Campaign, jobs: int) -> None:
     n = 3200 if quick else 60000
     shards = max(1, jobs)
     args = [(shard_d, (c.prop, c.tier, c.seed * 1000 + k, max(1, n // shards))) for k in range(shards)]
+    args += [(shard_pause, (c.prop, c.tier, c.seed * 1000 + 300 + k, max(1, n // (2 * shards)))) for k in range(shards)]
     try:
         import vlib.engine_k  # noqa: F401
 
@@ -133,14 +181,14 @@ def run(c: Campaign, jobs: int) -> None:
     run_shards(c, _dispatch, args, jobs)
     c.rule = ("evaluations = durable status changes (audit rows with old != new) observed over all runs; distinct_nontrivial = distinct "
               "(entity kind, old, new, handler that wrote it) tuples observed. Runs: engine D specs x schedules x injected cancel / signal / "
-              "recovery sweep / duplicate StartStage; engine K crash+recovery at sampled (thorough: all) commit points of 16 corpus specs; "
+              "recovery sweep / duplicate StartStage; operator pause/unpause around parallel branches with ResumeStage held back; engine K crash+recovery at sampled (thorough: all) commit points of 16 corpus specs; "
               "engine I racing-worker scenarios.")
     c.assumptions += [
         "audit rows come from AFTER UPDATE OF status / AFTER INSERT triggers installed by the harness; the 'writer' is the message type being handled when the row was written",
         "the published table is imported from stabilize.models.status at run time (a change to the table itself is not detected here)",
         "SQLite backend only",
     ]
-    for cls in ("inj:cancel", "inj:recover", "inj:signal", "feat:jump"):
+    for cls in ("inj:cancel", "inj:recover", "inj:signal", "feat:jump", "inj:pause", "inj:unpause"):
         if c.classes.get(cls, 0) == 0:
             c.harness_error(f"generator starvation: class {cls} never produced")
 
